@@ -123,6 +123,7 @@ type Exec struct {
 	writeBlk    *ssa.BasicBlock // while a helper is inlined: the caller's block, to which its writes are attributed
 	inlineDepth int
 	inlined     map[string]bool
+	frozenElems map[string]bool // element components that must not be written any more (see slice with low bound)
 	rpParams    []Value
 	rpNames     []string
 	rpResults   []Value
@@ -365,7 +366,18 @@ func (e *Exec) compTerm(s *State, name, sort string) string {
 	return n
 }
 
+// setCompRaw: setComp without the "frozen element component" check (used by the sub-slice copy itself)
+func (e *Exec) setCompRaw(s *State, name, sort, term string) {
+	saved := e.frozenElems[name]
+	e.frozenElems[name] = false
+	e.setComp(s, name, sort, term)
+	e.frozenElems[name] = saved
+}
+
 func (e *Exec) setComp(s *State, name, sort, term string) {
+	if e.frozenElems[name] {
+		unsupportedf("write to elements of %s after a slice with a non-zero low bound was taken (aliasing between the two is not modelled)", name)
+	}
 	e.compSort[name] = sort
 	if _, ok := e.compInit[name]; !ok {
 		e.compTerm(s, name, sort)
